@@ -24,7 +24,7 @@ import (
 type B []byte
 
 type in struct {
-	Kind    string `json:"kind"` // name | tag | gen | sweep (all strings of length N over S)
+	Kind    string `json:"kind"` // name | tag | gen | sweep (all strings of length N over S) | more | sweepmore | ishook
 	N       int    `json:"n,omitempty"`
 	S       B      `json:"s,omitempty"`
 	Inst    B      `json:"inst,omitempty"`
@@ -386,6 +386,43 @@ func gen(r *vh.Rand, tier string, n int) []in {
 			}
 		}
 	}
+	// 7. the daemon's other validators (app hook plug slot interface alias snap-id socket iface-tag quota-group provenance)
+	for _, s := range enum(alpha, 3) {
+		ins = append(ins, in{Kind: "more", S: B(s)})
+	}
+	ins = append(ins, in{Kind: "sweepmore", S: B(alpha), N: 4})
+	if tier == "thorough" {
+		ins = append(ins, in{Kind: "sweepmore", S: B(alpha), N: 5})
+	}
+	for _, l := range []int{1, 2, 31, 32, 33, 39, 40, 41, 64} {
+		ins = append(ins, in{Kind: "more", S: B(r.Str("azAZ09", l, l))}, in{Kind: "more", S: B(nameOfLen(r, l))},
+			in{Kind: "more", S: B(r.Str("azAZ09", l, l) + "-")}, in{Kind: "more", S: B(r.Str("az09AZ-_.", l, l))})
+	}
+	for _, s := range []string{"a.b_c-d", ".a", "_a", "-a", "a.", "A-b", "a--b", "a-", "Install", "install", "x11", "0ad", "global-upload", "a_b", "a b", "a\n", "\xc3\xa9"} {
+		ins = append(ins, in{Kind: "more", S: B(s)})
+	}
+	for i := 0; i < n/2; i++ {
+		s := r.Pick([]string{goodName(r), appName(r), hookName(r), r.Str("azAZ09-_.", 1, 8), r.Str("azAZ09", 32, 32)})
+		if r.Chance(1, 3) {
+			s = mutate(r, s)
+		}
+		if strings.IndexByte(s, 0) >= 0 || len(s) > 300 {
+			continue
+		}
+		ins = append(ins, in{Kind: "more", S: B(s)})
+	}
+	// 8. which tags snap-confine's sc_is_hook_security_tag calls hook tags, against ParseSecurityTag's kind
+	for _, nm := range []string{"foo", "0ad", "a0", "9", "foo-bar", "x"} {
+		for _, key := range []string{"", "k1", "0"} {
+			for _, comp := range []string{"", "comp", "0c"} {
+				for _, hk := range []string{"install", "configure", "hook", "0h", "A"} {
+					th, _ := realTag(nm, key, comp, hk, true)
+					ta, _ := realTag(nm, key, "", hk, false)
+					ins = append(ins, in{Kind: "ishook", S: B(th)}, in{Kind: "ishook", S: B(ta)}, in{Kind: "ishook", S: B(mutate(r, th))})
+				}
+			}
+		}
+	}
 	for i := range ins {
 		ins[i].Text = fmt.Sprintf("%q %q %q %q", ins[i].S, ins[i].Inst, ins[i].Comp, ins[i].Name)
 	}
@@ -436,6 +473,13 @@ func nameVerdicts(s string) (goSnap, goInst, goComp bool, c string) {
 	return
 }
 
+// moreVerdicts: the daemon's other name validators, in the order of Naming.more_verdicts
+func moreVerdicts(s string) []bool {
+	return []bool{naming.ValidateApp(s) == nil, naming.ValidateHook(s) == nil, naming.ValidatePlug(s) == nil, naming.ValidateSlot(s) == nil,
+		naming.ValidateInterface(s) == nil, naming.ValidateAlias(s) == nil, naming.ValidateSnapID(s) == nil, naming.ValidateSocket(s) == nil,
+		naming.ValidateIfaceTag(s) == nil, naming.ValidateQuotaGroup(s) == nil, naming.ValidateProvenance(s) == nil}
+}
+
 func execCase(x in) vh.Out {
 	if cp == nil {
 		cp = startC()
@@ -482,6 +526,71 @@ func execCase(x in) vh.Out {
 		}
 		return vh.Out{Observed: map[string]interface{}{"strings": len(cur), "accepted_by_some": accepted, "disagreeing": disagree}, Coq: sb.String(),
 			NonTrivial: accepted > 0, Tags: []string{fmt.Sprintf("sweep-len%d(%d strings)", x.N, len(cur))}}
+	case "more":
+		vs := moreVerdicts(string(x.S))
+		items := make([]string, len(vs))
+		acc := 0
+		for i, b := range vs {
+			items[i] = vh.CoqBool(b)
+			if b {
+				acc++
+			}
+		}
+		return vh.Out{Observed: vs, Coq: "(CMore " + vh.CoqBytes(string(x.S)) + " " + vh.CoqList(items) + ")", NonTrivial: acc > 0, Tags: []string{"more"}}
+	case "sweepmore":
+		var sb strings.Builder
+		sb.WriteString("(CSweepMore " + vh.CoqBytes(string(x.S)) + " " + vh.CoqNat(x.N) + " [[")
+		cur := []string{""}
+		for l := 0; l < x.N; l++ {
+			var next []string
+			for _, p := range cur {
+				for i := 0; i < len(x.S); i++ {
+					next = append(next, p+string(x.S[i]))
+				}
+			}
+			cur = next
+		}
+		accepted := 0
+		for i, s := range cur {
+			w := 0
+			for k, b := range moreVerdicts(s) {
+				if b {
+					w |= 1 << k
+				}
+			}
+			if w != 0 {
+				accepted++
+			}
+			if i > 0 && i%500 == 0 {
+				sb.WriteString("];\n[")
+			} else if i > 0 {
+				sb.WriteString(";")
+			}
+			fmt.Fprintf(&sb, "%d", w)
+		}
+		sb.WriteString("]]%N)")
+		return vh.Out{Observed: map[string]interface{}{"strings": len(cur), "accepted_by_some": accepted}, Coq: sb.String(),
+			NonTrivial: accepted > 0, Tags: []string{fmt.Sprintf("sweepmore-len%d(%d strings)", x.N, len(cur))}}
+	case "ishook":
+		tag := string(x.S)
+		gk := "None"
+		if t, err := naming.ParseSecurityTag(tag); err == nil {
+			if _, ok := t.(naming.HookSecurityTag); ok {
+				gk = "(Some true)"
+			} else {
+				gk = "(Some false)"
+			}
+		}
+		c := cp.ask("H " + hx(x.S))
+		tags := []string{"ishook"}
+		if c == "1" {
+			tags = append(tags, "sc-says-hook")
+		}
+		if gk == "(Some true)" {
+			tags = append(tags, "go-says-hook")
+		}
+		return vh.Out{Observed: map[string]interface{}{"go_kind": gk, "sc_is_hook": c}, Coq: "(CIsHook " + vh.CoqBytes(tag) + " " + gk + " " + vh.CoqBool(c == "1") + ")",
+			NonTrivial: gk != "None" || c == "1", Tags: tags}
 	case "name":
 		s := string(x.S)
 		goSnap, goInst, goComp, c := nameVerdicts(s)
